@@ -120,7 +120,7 @@ CHECKS.update({
              "answer is correlated to the recorded application once, duplicates ignored.",
              "route_request_spec, C10_request_shape, C10_eligible, C10_none_is_error, C10_hbh_fresh, C10_correlation, C10_duplicate_ignored; over whole histories: "
              "C10_history_answer_to_sender, C10_history_answer_once, C10_history_requests_only_to_ready",
-             extra="Link/LinkIds.v ties the hop-by-hop generator to node/_helpers.py; concurrent senders are searched with the C16 schedule exploration; the model's atomic hand-over of an answer to the blocked sender is checked against the real send_request / receive_answer / send_message under every source-line interleaving with <= 1-2 pre-emptions (tools/racelib.py: 400 schedules quick, 3500 thorough) - a search, not a proof"),
+             extra="Link/LinkIds.v ties the hop-by-hop generator to node/_helpers.py; concurrent senders are searched with the C16 schedule exploration; the hand-over of an answer to the blocked sender is a second Coq model (Model/Handoff.v: the statements of send_request and receive_answer as two thread programs regenerated from application.py by tools/translate.py, Link/LinkHandoff.v by reflexivity) with theorems for every schedule (Props/C10Handoff.v: C10_handoff_never_raises, _handler_only_after_timeout, _sender_gets_answer, _final, _sender_wakes, _no_timeout_answer; _send_first_refuted, _test_then_index_refuted, _set_first_refuted) proved by a computed, closed finite reachable set lifted by induction on the schedule; behind it the real send_request / receive_answer / send_message run under every source-line interleaving with <= 1-2 pre-emptions (tools/racelib.py: 700 schedules quick, 7000 thorough) as failing-input search"),
  "C11": node("C11", "check_timers unfolded as a decision table over state x timers with per-peer override; exactly one DWR when idle, none while waiting, "
              "DWA restores READY, silence closes with the watchdog reason, no DWR while traffic arrives, DWR answered 2001 in both ready sub-states, "
              "timer check idempotent.",
